@@ -216,42 +216,68 @@ theorem total_reduce : ∀ (fuel : Nat) (m : Mixture), m.length ≤ fuel → tot
     rw [total_cons, total_cons, total_reduce fuel _ (by simp at h; omega)]
     exact hs.1
 
-/-- what `DepolarizingNoise.apply` builds from one branch: the Kraus terms whose weight is positive -/
+/-- what `DepolarizingNoise.apply` builds from one branch: the Kraus terms whose factor is positive -/
 def depolBranch (p : Rat) (q : Nat) (pi : Rat) (ti : Tab) : Mixture :=
   (List.range 4).filterMap fun k =>
     let f := (depolFactors p).getD k 0
-    if 0 < pi * f then some (pi * f, (pauliGate k ti q).norm) else none
+    if 0 < f then some (pi * f, (pauliGate k ti q).norm) else none
 
-theorem total_depolBranch (p : Rat) (q : Nat) (pi : Rat) (ti : Tab) (hp0 : 0 ≤ p) (hp1 : p ≤ 1) (hpi : 0 ≤ pi) :
+/-- the kept terms of one branch carry exactly the branch's weight (any weight, `0 ≤ p ≤ 1`) -/
+theorem total_depolBranch (p : Rat) (q : Nat) (pi : Rat) (ti : Tab) (hp0 : 0 ≤ p) (hp1 : p ≤ 1) :
     total (depolBranch p q pi ti) = pi := by
   have e : List.range 4 = [0, 1, 2, 3] := by decide
   unfold depolBranch depolFactors
   rw [e]
-  have h1 : 0 ≤ pi * (1 - p) := mul_nonneg hpi (by linarith)
-  have h2 : 0 ≤ pi * (p / 3) := mul_nonneg hpi (div_nonneg hp0 (by norm_num))
+  have h1 : 0 ≤ 1 - p := by linarith
+  have h2 : 0 ≤ p / 3 := div_nonneg hp0 (by norm_num)
   simp only [List.filterMap_cons, List.filterMap_nil, List.getD_cons_zero, List.getD_cons_succ]
   rcases lt_or_eq_of_le h1 with a | a <;> rcases lt_or_eq_of_le h2 with b | b
   · simp only [a, b, if_true, total_cons, total_nil]; ring
-  · have : ¬ (0 < pi * (p / 3)) := by rw [← b]; exact lt_irrefl 0
-    simp only [a, this, if_true, if_false, total_cons, total_nil]; linarith
-  · have : ¬ (0 < pi * (1 - p)) := by rw [← a]; exact lt_irrefl 0
-    simp only [b, this, if_true, if_false, total_cons, total_nil]; linarith
-  · have h3 : ¬ (0 < pi * (1 - p)) := by rw [← a]; exact lt_irrefl 0
-    have h4 : ¬ (0 < pi * (p / 3)) := by rw [← b]; exact lt_irrefl 0
-    simp only [h3, h4, if_false, total_nil]; linarith
+  · have hb : ¬ (0 < p / 3) := by rw [← b]; exact lt_irrefl 0
+    have : p = 0 := by
+      have := b.symm; rcases div_eq_zero_iff.1 this with h | h
+      · exact h
+      · norm_num at h
+    simp only [a, hb, if_true, if_false, total_cons, total_nil]; rw [this]; ring
+  · have ha : ¬ (0 < 1 - p) := by rw [← a]; exact lt_irrefl 0
+    have : p = 1 := by linarith
+    simp only [b, ha, if_true, if_false, total_cons, total_nil]; rw [this]; ring
+  · exfalso
+    have : p = 0 := by
+      have := b.symm; rcases div_eq_zero_iff.1 this with h | h
+      · exact h
+      · norm_num at h
+    rw [this] at a; norm_num at a
+
+theorem depolBranch_ne_nil (p : Rat) (q : Nat) (pi : Rat) (ti : Tab) (hp0 : 0 ≤ p) (hp1 : p ≤ 1) :
+    depolBranch p q pi ti ≠ [] := by
+  have e : List.range 4 = [0, 1, 2, 3] := by decide
+  unfold depolBranch depolFactors
+  rw [e]
+  simp only [List.filterMap_cons, List.filterMap_nil, List.getD_cons_zero, List.getD_cons_succ]
+  by_cases h : 0 < 1 - p
+  · simp [h]
+  · have : 0 < p / 3 := by
+      have : p = 1 := by linarith
+      rw [this]; norm_num
+    simp [h, this]
 
 theorem total_flatMap_depol (p : Rat) (q : Nat) (hp0 : 0 ≤ p) (hp1 : p ≤ 1) :
-    ∀ (m : Mixture), (∀ x ∈ m, 0 ≤ x.1) → total (m.flatMap fun x => depolBranch p q x.1 x.2) = total m
-  | [], _ => by simp [total_nil]
-  | (pi, ti) :: rest, h => by
+    ∀ (m : Mixture), total (m.flatMap fun x => depolBranch p q x.1 x.2) = total m
+  | [] => by simp [total_nil]
+  | (pi, ti) :: rest => by
     simp only [List.flatMap_cons, total_append, total_cons]
-    rw [total_depolBranch p q pi ti hp0 hp1 (h (pi, ti) (by simp)),
-        total_flatMap_depol p q hp0 hp1 rest (fun x hx => h x (by simp [hx]))]
+    rw [total_depolBranch p q pi ti hp0 hp1, total_flatMap_depol p q hp0 hp1 rest]
+
+theorem depolarize_unfold (p : Rat) (q : Nat) (m : Mixture) :
+    depolarize p q m =
+      (if total (m.flatMap fun x => depolBranch p q x.1 x.2) ≠ total m then .error .value
+       else if (m.flatMap fun x => depolBranch p q x.1 x.2).isEmpty then .error .assertion
+       else .ok (reduce (m.flatMap fun x => depolBranch p q x.1 x.2).length (m.flatMap fun x => depolBranch p q x.1 x.2))) := rfl
 
 /-- `DepolarizingNoise.apply` keeps the total weight whenever it returns (its own `np.isclose` guard), … -/
 theorem total_depolarize (p : Rat) (q : Nat) (m m' : Mixture) (h : depolarize p q m = .ok m') : total m' = total m := by
-  unfold depolarize at h
-  simp only at h
+  rw [depolarize_unfold] at h
   split at h
   · cases h
   · rename_i hne
@@ -261,24 +287,18 @@ theorem total_depolarize (p : Rat) (q : Nat) (m m' : Mixture) (h : depolarize p 
       rw [total_reduce _ _ (Nat.le_refl _)]
       exact not_not.mp hne
 
-/-- … and for a probability `0 ≤ p ≤ 1` and non-negative weights the guard never fires: the only way
-    `DepolarizingNoise.apply` can fail on a mixture is the empty mixture of D37 (total weight 0) -/
-theorem depolarize_ok (p : Rat) (q : Nat) (m : Mixture) (hp0 : 0 ≤ p) (hp1 : p ≤ 1) (hm : ∀ x ∈ m, 0 ≤ x.1)
-    (hpos : 0 < total m) : ∃ m', depolarize p q m = .ok m' := by
-  have key : total (m.flatMap fun x => depolBranch p q x.1 x.2) = total m := total_flatMap_depol p q hp0 hp1 m hm
-  unfold depolarize
-  simp only
-  have e : (m.flatMap fun (x : Rat × Tab) => match x with
-      | (pi, ti) => (List.range 4).filterMap fun k =>
-        if 0 < pi * (depolFactors p).getD k 0 then some (pi * (depolFactors p).getD k 0, (pauliGate k ti q).norm) else none)
-      = m.flatMap fun x => depolBranch p q x.1 x.2 := by
-    congr 1
-  rw [e]
-  rw [if_neg (by rw [key]; exact fun h => h rfl)]
+/-- … and for a probability `0 ≤ p ≤ 1` it always returns on a non-empty mixture, whatever the weights — in particular on a
+    mixture of total weight 0 (after `PhotonLoss(1)`: D37 repaired) -/
+theorem depolarize_ok (p : Rat) (q : Nat) (m : Mixture) (hp0 : 0 ≤ p) (hp1 : p ≤ 1) (hm : m ≠ []) :
+    ∃ m', depolarize p q m = .ok m' := by
+  rw [depolarize_unfold]
+  rw [if_neg (by rw [total_flatMap_depol p q hp0 hp1 m]; exact fun h => h rfl)]
   have hne : (m.flatMap fun x => depolBranch p q x.1 x.2).isEmpty = false := by
-    cases hl : (m.flatMap fun x => depolBranch p q x.1 x.2) with
-    | nil => rw [hl, total_nil] at key; linarith
-    | cons _ _ => rfl
+    cases m with
+    | nil => exact absurd rfl hm
+    | cons x rest =>
+      simp only [List.flatMap_cons, List.isEmpty_eq_false_iff, ne_eq, List.append_eq_nil_iff, not_and]
+      intro h; exact absurd h (depolBranch_ne_nil p q x.1 x.2 hp0 hp1)
   rw [hne]; exact ⟨_, rfl⟩
 
 end Mix
@@ -536,14 +556,13 @@ theorem pauliGate_ok (n q : Nat) (hq : q < n) (k : Nat) : KeepsOK n (fun t => Mi
 
 theorem depolarize_ok' (n q : Nat) (hq : q < n) (p : Rat) (m m' : Mixture) (hm : MixOK n m)
     (h : Mix.depolarize p q m = .ok m') : MixOK n m' := by
-  unfold Mix.depolarize at h
-  simp only at h
+  rw [Mix.depolarize_unfold] at h
   split at h; · cases h
   split at h; · cases h
   injection h with h; subst h
   apply reduce_ok
   intro x hx
-  simp only [List.mem_flatMap, List.mem_filterMap, List.mem_range] at hx
+  simp only [List.mem_flatMap, Mix.depolBranch, List.mem_filterMap, List.mem_range] at hx
   obtain ⟨⟨pi, ti⟩, hy, k, _, hk⟩ := hx
   simp only at hk
   split at hk
@@ -837,9 +856,9 @@ theorem zero_strength_single_branch (nm : NoiseM) (hz : nm.isZeroStrength = true
     have hp : p = 0 := by simpa [NoiseM.isZeroStrength] using hz
     subst hp
     have e : List.range 4 = [0, 1, 2, 3] := by decide
-    have hw' : ¬ (0 < w * (0 / 3)) := by simp
+    have h0 : ¬ ((0 : Rat) < 0 / 3) := by norm_num
     simp only [Mix.applyNoise, Mix.depolarize, Mix.depolFactors, e, List.flatMap_cons, List.flatMap_nil, List.filterMap_cons,
-      List.filterMap_nil, List.getD_cons_zero, List.getD_cons_succ, sub_zero, mul_one, hw, hw', if_true, if_false,
+      List.filterMap_nil, List.getD_cons_zero, List.getD_cons_succ, sub_zero, mul_one, zero_lt_one, h0, if_true, if_false,
       List.append_nil, Mix.pauliGate]
     simp [Mix.total, qsumL, reduce_single]
   | pauli k a =>
@@ -1074,3 +1093,32 @@ theorem dm_depol_zero (n q : Nat) (hq : q < n) (ρ : Mat) (hn : ρ.n = pow2 n) (
 
 end Noise
 end Graphiq
+
+/-! ## 5. trace of the exact density matrix under photon loss -/
+
+namespace Graphiq.Noise
+open DM Mat
+
+theorem trace_congr (a b : Mat) (h : Mat.EqOn a b) : a.trace = b.trace := by
+  unfold Mat.trace
+  rw [gsum_eq_sum, gsum_eq_sum, h.1]
+  apply Finset.sum_congr rfl
+  intro i hi
+  have := Finset.mem_range.1 hi
+  exact h.2 i i (h.1 ▸ this) (h.1 ▸ this)
+
+theorem trace_smul (q : Rat) (a : Mat) : (Mat.smul q a).trace = GQ.smul q a.trace := by
+  unfold Mat.trace Mat.smul
+  simp only [gsum_eq_sum]
+  have : ∀ x : GQ, GQ.smul q x = (⟨q, 0⟩ : GQ) * x := by intro x; ext <;> simp [GQ.smul]
+  simp only [this, Finset.mul_sum]
+
+/-- `PhotonLoss` on a density matrix multiplies the trace by the survival probability (model-level twin of
+    `loss_scales_weight`) -/
+theorem dm_loss_trace (n q : Nat) (r : Rat) (a : Bool) (ρ ρ' : Mat) (h : DMx.applyNoise n (.loss r a) q ρ = .ok ρ') :
+    ρ'.trace = GQ.smul (1 - r) ρ.trace := by
+  simp only [DMx.applyNoise] at h
+  injection h with h; subst h
+  rw [trace_congr _ _ (Mat.norm_eqOn _), trace_smul]
+
+end Graphiq.Noise
